@@ -38,43 +38,52 @@ def gen_sunearth(seed, shard, n):
     from pymeeus.Moon import Moon
     from pymeeus import Coordinates as C
     rng = random.Random("sunearth/%s/%s" % (seed, shard))
+    shared = Epoch(2451545.0)
     for i in range(n):
         wide = rng.random() < 0.4
         y = rng.uniform(-2000, 4000) if wide else rng.uniform(1000, 3000)
         t = _jde_of_year(y)
         inr = 1 if 1000 <= y <= 3000 else 0
-        e = Epoch(t)
+        # every third instant: ONE long-lived Epoch of the run, which has answered all of this for the previous instant and
+        # is then set() to this one; whatever those answers left behind in it must not be read back now
+        if i % 3 == 0:
+            def EP(tt, _s=shared):
+                _s.set(tt)
+                return _s
+        else:
+            EP = Epoch
+        e = EP(t)
         # reflection
-        Ls, Bs, Rs = Sun.geometric_geocentric_position(Epoch(t))
-        Le, Be, Re = Earth.geometric_heliocentric_position(Epoch(t))
+        Ls, Bs, Rs = Sun.geometric_geocentric_position(EP(t))
+        Le, Be, Re = Earth.geometric_heliocentric_position(EP(t))
         first = rng.random() < 0.5
         for nut in (first, not first):          # the same epoch with both settings, in either order
-            Las, Bas, Ras = Sun.apparent_geocentric_position(Epoch(t), nutation=nut)
-            Lae, Bae, Rae = Earth.apparent_heliocentric_position(Epoch(t), nutation=nut)
+            Las, Bas, Ras = Sun.apparent_geocentric_position(EP(t), nutation=nut)
+            Lae, Bae, Rae = Earth.apparent_heliocentric_position(EP(t), nutation=nut)
             yield {"k": "refl", "yf": y, "tf": t, "nut": 1 if nut else 0, "Ls": fx(float(Ls)), "Bs": fx(float(Bs)), "Rs": fx(Rs),
                    "Le": fx(float(Le)), "Be": fx(float(Be)), "Re": fx(Re), "Las": fx(float(Las)), "Bas": fx(float(Bas)), "Ras": fx(Ras),
                    "Lae": fx(float(Lae)), "Bae": fx(float(Bae)), "Rae": fx(Rae)}
         # frames
-        ud, nd = _unit_norm(*Sun.rectangular_coordinates_mean_equinox(Epoch(t)))
-        uJ, nJ = _unit_norm(*Sun.rectangular_coordinates_j2000(Epoch(t)))
-        uB, nB = _unit_norm(*Sun.rectangular_coordinates_b1950(Epoch(t)))
+        ud, nd = _unit_norm(*Sun.rectangular_coordinates_mean_equinox(EP(t)))
+        uJ, nJ = _unit_norm(*Sun.rectangular_coordinates_j2000(EP(t)))
+        uB, nB = _unit_norm(*Sun.rectangular_coordinates_b1950(EP(t)))
         jq = t + rng.uniform(-3, 3) * 36525.0
-        uE, nE = _unit_norm(*Sun.rectangular_coordinates_equinox(Epoch(t), Epoch(jq)))
+        uE, nE = _unit_norm(*Sun.rectangular_coordinates_equinox(EP(t), Epoch(jq)))
         pJ, pB, pE = _precess_dir(ud, t, J2000), _precess_dir(ud, t, B1950), _precess_dir(ud, t, jq)
-        lj, bj, rj = Earth.geometric_heliocentric_position_j2000(Epoch(t))
-        ld, bd, rd = Earth.geometric_heliocentric_position(Epoch(t), tofk5=False)
-        l2, b2 = C.precession_ecliptical(Epoch(t), Epoch(J2000), ld, bd)
-        eps0 = math.radians(float(C.mean_obliquity(Epoch(t))))
+        lj, bj, rj = Earth.geometric_heliocentric_position_j2000(EP(t))
+        ld, bd, rd = Earth.geometric_heliocentric_position(EP(t), tofk5=False)
+        l2, b2 = C.precession_ecliptical(EP(t), Epoch(J2000), ld, bd)
+        eps0 = math.radians(float(C.mean_obliquity(EP(t))))
         yield {"k": "frame", "use": F3(U(float(Ls), float(Bs))), "ce0": fx(math.cos(eps0)), "se0": fx(math.sin(eps0)),
                "yf": y, "tf": t, "inr": inr, "R": fx(Rs), "ud": F3(ud), "nd": fx(nd), "uJ": F3(uJ), "nJ": fx(nJ),
                "uB": F3(uB), "nB": fx(nB), "uE": F3(uE), "nE": fx(nE), "pJ": F3(pJ), "pB": F3(pB), "pE": F3(pE),
                "ueJ": F3(U(float(lj), float(bj))), "peJ": F3(U(float(l2), float(b2))), "jq": jq}
         # obliquity and nutation; the date in every accepted form
-        e0 = float(C.mean_obliquity(Epoch(t)))
-        et = float(C.true_obliquity(Epoch(t)))
-        dpsi = float(C.nutation_longitude(Epoch(t)))
-        deps = float(C.nutation_obliquity(Epoch(t)))
-        om = math.radians(float(Moon.longitude_mean_ascending_node(Epoch(t))))
+        e0 = float(C.mean_obliquity(EP(t)))
+        et = float(C.true_obliquity(EP(t)))
+        dpsi = float(C.nutation_longitude(EP(t)))
+        deps = float(C.nutation_obliquity(EP(t)))
+        om = math.radians(float(Moon.longitude_mean_ascending_node(EP(t))))
         forms = []
         yy, mm, dd = Epoch(t).get_date()
         for args in ((yy, mm, dd), ((yy, mm, dd),), ([yy, mm, dd],), (Epoch(yy, mm, dd),)):
